@@ -109,6 +109,13 @@ def fwd_unit(mode):
     cvf(Fn("double_in_place", props=(tag,), preamble=bu,
            ensures=("r is Ok ==> " if sound else "r is Ok, ") + "add_post(pv(*old(self)), pv(*old(self)), pv(*final(self)))"))
     cvf(Fn("negate", props=(tag,), preamble=bu, ensures=f"match r {{ Ok(v) => pv(v) == te_neg(pv(*self)), {E_} }}"))
+    # ---- R1CSVar: the native value a variable stands for, and its constraint system
+    rv = "impl R1CSVar<Fq> for ElementVar"
+    rvs = sub7 + [("R7", r'\bSelf::Value\b', 'Element')]
+    items.append(Item(INN, rv, [Fn("cs", props=(tag,), preamble=bu, ensures="r == ev_cs(self.inner)", subst=rvs)], header_out="impl ElementVar"))
+    items.append(Item(INN, rv, [Fn("value", props=(tag,), preamble=bu + " broadcast use repr_of_p4_;", subst=rvs,
+                                   requires=None if sound else "on_curve(pv(*self))",
+                                   ensures=f"match r {{ Ok(e) => repr(e.inner) == pv(*self), {E_} }}")], header_out="impl ElementVar"))
     extra_lem = ""
     if sound:
         # ---- AllocVar<Element>::new_variable, soundness reading (C14: "the curve coordinates offered when an element is
@@ -501,6 +508,14 @@ def outer_unit(mode):
     o(cvo, Fn("negate", props=(tag,), preamble=bu, requires=None if sound else "ok_var(*self)",
               ensures=f"match r {{ Ok(v) => !lz_from_enc(v.inner) && ov(v) == te_neg(ov(*self)), {E_} }}"))
 
+    # ---- R1CSVar of the outer variable (forces the element)
+    istub("impl R1CSVar<Fq> for ElementVar", Fn("cs", ensures="r == ev_cs(self.inner)"), fwd)
+    rvo = "impl R1CSVar<Fq> for ElementVar"
+    rvs = [("R7", r'\bSelf::Value\b', 'Element')]
+    o(rvo, Fn("cs", props=(tag,), preamble=bu, subst=rvs, requires=None if sound else "ok_var(*self)", ensures="true"))
+    o(rvo, Fn("value", props=(tag,), preamble=bu + " broadcast use repr_of_p4_;", subst=rvs,
+              requires=None if sound else "ok_var(*self), on_curve(ov(*self))",
+              ensures=f"match r {{ Ok(e) => repr(e.inner) == ov(*self), {E_} }}"))
     # ---- the three AllocVar impls of element.rs, soundness reading (C14).  Three inherent fns of one name cannot coexist,
     # so each is emitted under a variant name (R13b) and the one call between them is renamed accordingly.
     if sound:
